@@ -39,6 +39,10 @@ def _quiet():
     logging.disable(logging.CRITICAL)
     import numpy as np
     np.seterr(all="ignore")
+    if not os.environ.get("VP_KEEP_STDERR"):
+        # progress bars of dependencies (mtscomp/tqdm) write to stderr; harness errors are captured as text instead
+        dn = os.open(os.devnull, os.O_WRONLY)
+        os.dup2(dn, 2)
 
 
 def _scratch_root():
@@ -351,7 +355,8 @@ def main(argv=None):
 
     # ---- replays for violations
     viol_lines = []
-    rdir = VERIF / "replays" / mod_id
+    outroot = Path(os.environ["VP_OUT"]) if os.environ.get("VP_OUT") else VERIF
+    rdir = outroot / "replays" / mod_id
     for kind, v in sorted(m["failures"].items()):
         rdir.mkdir(parents=True, exist_ok=True)
         name = re.sub(r"[^A-Za-z0-9_.@-]+", "_", kind)[:80] + "-" + case_hash(v["case"]) + ".json"
@@ -391,8 +396,8 @@ def main(argv=None):
         "wall_s": round(wall, 2),
         "violations": len(m["failures"]),
     }
-    (VERIF / "evidence").mkdir(exist_ok=True)
-    (VERIF / "evidence" / f"{mod_id}.json").write_text(json.dumps(ev, indent=1, default=str))
+    (outroot / "evidence").mkdir(exist_ok=True, parents=True)
+    (outroot / "evidence" / f"{mod_id}.json").write_text(json.dumps(ev, indent=1, default=str))
 
     # ---- report
     print(f"property={mod_id} tier={tier} seed={seed} evaluations={m['evaluations']} "
